@@ -484,7 +484,7 @@ func Graph(t *rapid.T, o GraphOpts) GraphCase {
 		rest := rapid.Permutation(DocPool).Draw(t, "docs")
 		urls = append(urls, rest[:nd-1]...)
 	}
-	docs := map[string]map[string]any{}
+	docs := map[string]any{}
 	// documents are generated in a drawn order: the creation index orders the
 	// targets in dag mode, and the root must not always come first (back references)
 	order := make([]int, len(urls))
@@ -500,6 +500,15 @@ func Graph(t *rapid.T, o GraphOpts) GraphCase {
 		if i > 0 && o.SchemaDocs && Pct(t, "schemadoc", 15) {
 			// a document whose root is a plain schema: target of whole-document refs
 			docs[u] = s.genSchema(base, 0, o.RefPct)
+			continue
+		}
+		if i > 0 && o.SchemaDocs && Pct(t, "arraydoc", 7) {
+			// a document whose top-level value is an array of schemas: pointers such as arr.json#/1 work on it
+			var arr []any
+			for j, c := 0, 1+Uniform(t, "narr", 3); j < c; j++ {
+				arr = append(arr, s.genSchema(base.Child(strconv.Itoa(j)), 0, o.RefPct))
+			}
+			docs[u] = arr
 			continue
 		}
 		d := map[string]any{}
@@ -648,7 +657,7 @@ func Graph(t *rapid.T, o GraphOpts) GraphCase {
 // suffixed) under an unused URL, preferably in the same folder, and redirects some of the `$ref`s that
 // designate the original to the same pointer of the copy: one `$ref` text (a fragment-only one above all) then
 // designates different things in two documents met during one expansion.
-func (s *gstate) twin(urls []string, docs map[string]map[string]any, spell Spelling) {
+func (s *gstate) twin(urls []string, docs map[string]any, spell Spelling) {
 	t := s.t
 	used := map[string]bool{}
 	for _, u := range urls {
@@ -678,11 +687,13 @@ func (s *gstate) twin(urls []string, docs map[string]map[string]any, spell Spell
 		return
 	}
 	dst := cands[Uniform(t, "twin at", len(cands))]
-	var cp map[string]any
+	var cp any
 	b, _ := json.Marshal(docs[src])
 	_ = json.Unmarshal(b, &cp)
-	delete(cp, "swagger")
-	delete(cp, "info")
+	if m, ok := cp.(map[string]any); ok {
+		delete(m, "swagger")
+		delete(m, "info")
+	}
 	var relabel func(n any)
 	relabel = func(n any) {
 		switch x := n.(type) {
@@ -815,8 +826,14 @@ func Classify(c GraphCase) GraphClass {
 	sort.Strings(docs)
 	for _, u := range docs {
 		all = append(all, g.TopElements(u)...)
-		if _, isSchemaDoc := g.Docs[u].(map[string]any)["title"]; isSchemaDoc {
-			all = append(all, model.Elem{P: model.Pos{Doc: u}, K: model.KSchema})
+		if dm, isObj := g.Docs[u].(map[string]any); isObj {
+			if _, isSchemaDoc := dm["title"]; isSchemaDoc {
+				all = append(all, model.Elem{P: model.Pos{Doc: u}, K: model.KSchema})
+			}
+		} else if arr, isArr := g.Docs[u].([]any); isArr {
+			for i := range arr {
+				all = append(all, model.Elem{P: model.Pos{Doc: u, Ptr: "/" + strconv.Itoa(i)}, K: model.KSchema})
+			}
 		}
 	}
 	g.Walk(all, func(p model.Pos, k model.Kind, n any, isRef bool, ref string) {
